@@ -10,12 +10,14 @@ License: Apache-2.0
 import math
 
 from datetime import datetime
+from datetime import timedelta
 
 from labella.d3_time import d3_time
 
 d3_identity = lambda x: x
-dt2milli = lambda x: x.timestamp() * 1000.0
-milli2dt = lambda x: datetime.fromtimestamp(x / 1000.0)
+EPOCH = datetime(1970, 1, 1)
+dt2milli = lambda x: (x - EPOCH).total_seconds() * 1000.0
+milli2dt = lambda x: EPOCH + timedelta(milliseconds=x)
 
 
 def drange(start, stop, step=1):
@@ -209,9 +211,8 @@ class d3TimeScaleMilliseconds(object):
             map(
                 milli2dt,
                 range(
-                    math.ceil(int(start.timestamp() * 1000) / int(step))
-                    * int(step),
-                    int(stop.timestamp() * 1000),
+                    math.ceil(int(dt2milli(start)) / int(step)) * int(step),
+                    int(dt2milli(stop)),
                     int(step),
                 ),
             )
@@ -467,7 +468,7 @@ class TimeScale(object):
 
     def ticks(self, interval=None, skip=None):
         extent = d3_scaleExtent(self.domain())
-        extent = list(map(lambda x: x.timestamp() * 1000, extent))
+        extent = list(map(dt2milli, extent))
         method = (
             self.tickMethod(extent, 10)
             if interval is None
